@@ -19,6 +19,7 @@ CONSTANTS
   Fixed = TRUE
   Roots = {2}
   GenT = {}
+  FixedF5 = TRUE
   NoWeak = {}
 INVARIANT OneGuardTripEnds
 CONSTRAINT Bound
